@@ -136,7 +136,7 @@ var lvmValues = []int64{0x25, 0x26, 0x20, 0x2c, 0x34, 0x04, 0x64, 0xa4, 0xe4, 0x
 var stratumValues = []int64{0, 16, 15, 1, 255, 17, 128, 2}
 
 func genRecipe(r *lib.Rng, nts bool) recipe {
-	kinds := []int{1, 2, 2, 3, 3, 4, 4, 5, 5, 5, 6, 6, 7, 8, 9}
+	kinds := []int{1, 2, 2, 3, 3, 4, 4, 5, 5, 5, 6, 6, 7, 8, 9, 21}
 	if nts {
 		kinds = append(kinds, 10, 11, 11, 11, 12, 12, 13, 13, 13, 14, 15, 16, 16, 17, 18, 19, 19, 20)
 	}
